@@ -1019,3 +1019,117 @@ Proof.
   rewrite (hash_run_ext P (mod_sqrt P) (mod_sqrt_big P)) by (intros; symmetry; apply mod_sqrt_big_eq).
   split; [vm_compute; reflexivity|]. split; vm_compute; reflexivity.
 Qed.
+
+(* ================================================================== *)
+(* the same buffers used again: decoding is a function of the bytes *)
+Lemma decode_again_spec {R} (dec : list N -> R) k buf :
+  decode_again dec k buf = (repeat (dec buf) k, buf).
+Proof.
+  induction k as [|k IH]; cbn [decode_again repeat]; [reflexivity|]. rewrite IH. reflexivity.
+Qed.
+Lemma res1_eqb_eq a b : res1_eqb a b = true -> a = b.
+Proof.
+  destruct a, b; cbn [res1_eqb]; try discriminate; try reflexivity.
+  intros H. apply point1_eqb_eq in H. congruence.
+Qed.
+Lemma res2_eqb_eq a b : res2_eqb a b = true -> a = b.
+Proof.
+  destruct a, b; cbn [res2_eqb]; try discriminate; try reflexivity.
+  intros H. apply point2_eqb_eq in H. congruence.
+Qed.
+Lemma bytes_eqb_eq a : forall b, bytes_eqb a b = true -> a = b.
+Proof.
+  unfold bytes_eqb. induction a as [|x a IH]; intros [|y b] H; cbn in H; try discriminate; auto.
+  apply andb_true_iff in H as [Hl H]. apply andb_true_iff in H as [Hx H].
+  apply N.eqb_eq in Hx. subst. f_equal. apply IH. rewrite Hl. exact H.
+Qed.
+Lemma bytes_eqb_refl a : bytes_eqb a a = true.
+Proof.
+  unfold bytes_eqb. rewrite Nat.eqb_refl. cbn [andb].
+  induction a as [|x a IH]; cbn; auto. now rewrite N.eqb_refl.
+Qed.
+Lemma cres_same_eq a b : cres_same a b = true -> a = b.
+Proof.
+  destruct a, b; cbn [cres_same]; try discriminate; auto.
+  intros H. now rewrite (bytes_eqb_eq _ _ H).
+Qed.
+Lemma res1_eqb_refl_ok a : (match a with R1 _ | Err1 | Panic1 => True | _ => False end) ->
+  res1_eqb a a = true.
+Proof.
+  destruct a; cbn [res1_eqb]; try tauto. intros _. now apply point1_eqb_eq.
+Qed.
+Lemma res2_eqb_refl_ok a : (match a with R2 _ | Err2 | Panic2 => True | _ => False end) ->
+  res2_eqb a a = true.
+Proof.
+  destruct a; cbn [res2_eqb]; try tauto. intros _. now apply point2_eqb_eq.
+Qed.
+
+(* what [reuse_ok] says *)
+Definition reuse_good (u : ucase) : Prop :=
+  match u with
+  | URound1 pt c d d2 d3 c_after pt_after recomp =>
+      d2 = d /\ d3 = d /\ c_after = c /\ pt_after = pt
+      /\ (forall q, d = R1 q -> recomp = Some c)
+  | URound2 pt c d d2 d3 c_after pt_after recomp =>
+      d2 = d /\ d3 = d /\ c_after = c /\ pt_after = pt
+      /\ (forall q, d = R2 q -> recomp = Some c)
+  | UDec1 m d d2 d3 m_after _ => d2 = d /\ d3 = d /\ m_after = m
+  | UDec2 m d d2 d3 m_after _ => d2 = d /\ d3 = d /\ m_after = m
+  | UHash _ _ _ kept | UHashRun _ _ _ _ kept => kept = true
+  end.
+Lemma reuse_ok_sound u : reuse_ok u = true -> reuse_good u.
+Proof.
+  destruct u; cbn [reuse_ok reuse_good]; intros H; auto;
+    repeat (apply andb_true_iff in H as [H ?]).
+  - apply res1_eqb_eq in H. apply res1_eqb_eq in H3. apply cres_same_eq in H2.
+    apply point1_eqb_eq in H1. repeat split; auto.
+    intros q ->. destruct recomp as [rc|]; [|discriminate]. apply cres_same_eq in H0. congruence.
+  - apply res2_eqb_eq in H. apply res2_eqb_eq in H3. apply cres_same_eq in H2.
+    apply point2_eqb_eq in H1. repeat split; auto.
+    intros q ->. destruct recomp as [rc|]; [|discriminate]. apply cres_same_eq in H0. congruence.
+  - apply res1_eqb_eq in H. apply res1_eqb_eq in H1. apply bytes_eqb_eq in H0. auto.
+  - apply res2_eqb_eq in H. apply res2_eqb_eq in H1. apply bytes_eqb_eq in H0. auto.
+Qed.
+
+(* the model passes: decoding the model's buffer three times ([decode_again]) and compressing
+   the decoded point of a round trip gives observations that satisfy [reuse_ok] *)
+Lemma reuse_holds_of_model_dec1 p ms m :
+  let '(ds, m') := decode_again (decompress1 p ms) 3 m in
+  m <> [] ->
+  (match decompress1 p ms m with Panic1 => False | _ => True end) ->
+  reuse_ok (UDec1 m (nth 0 ds Panic1) (nth 1 ds Panic1) (nth 2 ds Panic1) m' None) = true.
+Proof.
+  rewrite decode_again_spec. cbn [repeat nth reuse_ok]. intros _ Hd.
+  rewrite bytes_eqb_refl, andb_true_r, andb_diag.
+  apply res1_eqb_refl_ok. destruct m as [|b0 rest]; cbn [decompress1] in *; [tauto|].
+  destruct (ms _); [|exact I]. unfold g1_from_ints.
+  repeat match goal with |- context [if ?b then _ else _] => destruct b end; exact I.
+Qed.
+Lemma reuse_holds_of_model_round1 p ms pt :
+  decompress1 p ms (compress1 pt) = R1 pt ->
+  let c := CBytes (compress1 pt) in
+  let '(ds, buf) := decode_again (decompress1 p ms) 3 (compress1 pt) in
+  reuse_ok (URound1 pt c (nth 0 ds Panic1) (nth 1 ds Panic1) (nth 2 ds Panic1) (CBytes buf) pt
+                    (Some (CBytes (compress1 pt)))) = true.
+Proof.
+  intros Hr. rewrite decode_again_spec. cbn [repeat nth reuse_ok]. rewrite Hr.
+  cbn [res1_eqb cres_same]. rewrite bytes_eqb_refl.
+  replace (point1_eqb pt pt) with true by (symmetry; now apply point1_eqb_eq). reflexivity.
+Qed.
+Lemma reuse_holds_of_model_round2 p sq insub pt :
+  decompress2 p sq insub (compress2 pt) = R2 pt ->
+  let c := CBytes (compress2 pt) in
+  let '(ds, buf) := decode_again (decompress2 p sq insub) 3 (compress2 pt) in
+  reuse_ok (URound2 pt c (nth 0 ds Panic2) (nth 1 ds Panic2) (nth 2 ds Panic2) (CBytes buf) pt
+                    (Some (CBytes (compress2 pt)))) = true.
+Proof.
+  intros Hr. rewrite decode_again_spec. cbn [repeat nth reuse_ok]. rewrite Hr.
+  cbn [res2_eqb cres_same]. rewrite bytes_eqb_refl.
+  replace (point2_eqb pt pt) with true by (symmetry; now apply point2_eqb_eq). reflexivity.
+Qed.
+
+Theorem judge_u_big_eq u : Concrete.judge_u u = Concrete.judge_u_Z u.
+Proof.
+  unfold Concrete.judge_u, Concrete.judge_u_Z, judge_u.
+  rewrite (agree_ext P _ _ _ _ (mod_sqrt_big_eq P) (sqrt_gfp2_big_eq P)). reflexivity.
+Qed.
